@@ -119,12 +119,12 @@ def check(ctx, stream, native, conv, vclass, matcher, bounds, nontrivial, extra=
 
 
 def correspondence(ctx):
-    n = 8000 if ctx.thorough else 1500
+    n = 30000 if ctx.thorough else 1500
     T.run_corr(ctx, "corr_npm", "npm-model", n)
     T.run_corr(ctx, "corr_gempypi", "gem-pypi-model", n)
     T.run_corr(ctx, "corr_mavenconan", "maven-nuget-conan-model", n)
     T.run_corr(ctx, "corr_advisory", "deb-rpm-nginx-openssl-model", n)
-    per = 400 if ctx.thorough else 80
+    per = 1500 if ctx.thorough else 80
     # ---------------- npm
     rng = ctx.rng("c06", "npm")
     fz = forced(["caret", "tilde", "x1", "x2", "hyphen", "two", "lt"])
